@@ -151,6 +151,12 @@ func runC27(r *Run) {
 					outstanding--
 					p.finalSeq = w.nextSeq()
 					send(packet.SuccessfulResourcePackResponseStatus)
+					if modern && r.W.Pick(3) == 0 {
+						// 1.20.3+ clients report an applied pack again (e.g. after a switch)
+						simrt.Yield("c27.again")
+						r.Op("success-reported-again")
+						send(packet.SuccessfulResourcePackResponseStatus)
+					}
 				}
 			})
 		}
